@@ -52,6 +52,7 @@ def _run(tier, seed, t0):
     stats = {'z3_accepted': 0, 'z3_rejected': 0, 'z3_raised': 0, 'oracle_unknown': 0, 'oracle_agree': 0,
              'sympy_accepted': 0, 'sympy_rejected': 0, 'replayed_natively': 0}
     evals = 0
+    nonlocal_evals = [0]
 
     VARS = {'x': 'nat', 'y': 'nat', 'z': 'nat', 'i': 'int', 'j': 'int', 'r': 'real', 's': 'real', 'p': 'bool',
             'q': 'bool', 'f': 'nat => nat', 'g': 'nat => nat', 'h': 'real => real', 'S': 'nat set', 'T': 'nat set'}
@@ -420,6 +421,45 @@ def _run(tier, seed, t0):
 
     for src in directed:
         z3_case(src, 'directed')
+    # invalid goals on which z3 tends to answer 'unknown' (quantified recurrences); the counter-model is supplied as
+    # a hint and only narrows the oracle's search: the oracle asks for a model of  ~goal & hint
+    V0 = z3.Var(0, z3.IntSort())
+    hinted = [
+        ("(!n::nat. f (n + 1) > f n) --> f 0 > 0", "f n = n", {'f': V0}),
+        ("(!n::nat. f (n + 1) = f n + 2) --> f 0 = 0", "f n = 2 * n + 1", {'f': 2 * V0 + 1}),
+        ("(!n::nat. g (n + 1) >= g n) --> g 3 > g 0", "g n = 0", {'g': z3.IntVal(0) + 0 * V0}),
+        ("(!n::nat. f (n + 2) = f n) --> f 1 = f 0", "f n = (if n mod 2 = 0 then 0 else 1)", {'f': V0 % 2}),
+    ]
+    for src, hint, defs in hinted:
+        nonlocal_evals[0] += 1
+        try:
+            t = P(src)
+            verdict = z3wrapper.solve(t)
+        except Exception:
+            stats['z3_raised'] += 1
+            continue
+        distinct.add(pr(t))
+        if not verdict:
+            stats['z3_rejected'] += 1
+            continue
+        stats['z3_accepted'] += 1
+        try:
+            f_, ax = enc_goal(t)
+            body = z3.And(z3.Not(f_), *ax) if ax else z3.Not(f_)
+            for fn_, d_ in defs.items():
+                body = z3.substitute_funs(body, (z3.Function(fn_, z3.IntSort(), z3.IntSort()), d_))
+            so = z3.Solver()
+            so.set('timeout', 8000)
+            so.add(body)
+            rr = str(so.check())
+        except Exception:
+            rr = 'unknown'
+        if rr == 'sat':
+            violations.append({'clause': 'z3-valid', 'goal': pr(t), 'family': 'hinted',
+                               'detail': 'z3wrapper.solve accepts the goal; the guard-correct encoding has a counter-'
+                                         'model (found with the hint %s)' % hint, 'counter_model': hint, 'replayed': False})
+        else:
+            stats['oracle_unknown'] += 1
     n = 250 if tier == 'quick' else 4000
     for it in range(n):
         nprem = rng.choice([0, 0, 1, 2])
@@ -521,6 +561,18 @@ def _run(tier, seed, t0):
             hi = str(int(lo) + rng.choice([1, 2, 3]))
             interval = (lo, hi, rng.random() < 0.6)
         sympy_case(gsrc, interval, 'generated')
+        if interval is not None:
+            # the same goal on the interval with the other kind of end points, right afterwards (result cache)
+            sympy_case(gsrc, (interval[0], interval[1], not interval[2]), 'generated-other-endpoints')
+    for gsrc in ["~(x * (1 - x) = 0)", "~(x = 0)", "~(x - 1 = 0)", "x > 0", "x * (1 - x) > 0", "1 - x > 0",
+                 "~(x ^ (2::nat) - x = 0)", "x < 1", "~((x - 1) * (x - 1) = 0)", "x * x < 1"]:
+        for first_closed in (False, True):
+            sympy_case(gsrc, ('0', '1', first_closed), 'endpoint-sequence')
+            sympy_case(gsrc, ('0', '1', not first_closed), 'endpoint-sequence')
+            try:
+                sympywrapper.solveset_cache.clear()
+            except Exception:
+                pass
 
     context.set_context('real', vars={})
     return {
@@ -530,7 +582,7 @@ def _run(tier, seed, t0):
                 'free counter-models replayed by exact evaluation; %d directed + %d generated goals for the SymPy '
                 'step (rational expressions of depth <= 2 in x, y), exact evaluation on a grid of %d rationals' % (
                     len(directed), n, len(sym_directed), n2, len(grid)),
-        'evaluations': evals,
+        'evaluations': evals + nonlocal_evals[0],
         'distinct_nontrivial': len(distinct),
         'samples': samples,
         'stats': stats,
